@@ -174,3 +174,89 @@ func (e *Engine) checkDirectCallsOnly(s *State, fn *ssa.Function, c *FuncContrac
 		e.obligations[len(e.obligations)-1].Result = &SolverResult{Status: "sat", Solver: "static-call-analysis", Output: why}
 	}
 }
+
+// staticCallsOf collects the keys of all functions (first-party or not) called directly from fn, its first-party
+// callees and the closures it creates.
+func (e *Engine) staticCallsOf(fn *ssa.Function, seen map[*ssa.Function]bool, out map[string]string) {
+	if fn == nil || seen[fn] || fn.Blocks == nil {
+		return
+	}
+	seen[fn] = true
+	for _, b := range fn.Blocks {
+		for _, in := range b.Instrs {
+			var cc *ssa.CallCommon
+			switch x := in.(type) {
+			case *ssa.Call:
+				cc = x.Common()
+			case *ssa.Defer:
+				cc = x.Common()
+			case *ssa.Go:
+				cc = x.Common()
+			case *ssa.MakeClosure:
+				if cf, ok := x.Fn.(*ssa.Function); ok {
+					e.staticCallsOf(cf, seen, out)
+				}
+			}
+			if cc == nil || cc.IsInvoke() {
+				continue
+			}
+			if callee := cc.StaticCallee(); callee != nil {
+				k := funcKey(callee)
+				if _, ok := out[k]; !ok {
+					out[k] = posString(e.fset, in.Pos())
+				}
+				if isFirstParty(callee) {
+					e.staticCallsOf(callee, seen, out)
+				}
+			}
+			for _, a := range cc.Args {
+				if mc, ok := a.(*ssa.MakeClosure); ok {
+					if cf, ok := mc.Fn.(*ssa.Function); ok {
+						e.staticCallsOf(cf, seen, out)
+					}
+				}
+			}
+		}
+	}
+}
+
+// checkNeverCalls: "never_calls [tag] k1, k2, ..." - none of the listed interface methods (pkg/path.Iface.Method) or
+// functions (pkg/path.Func, pkg/path.Type.Method) is reachable from the function through first-party callees and closures.
+func (e *Engine) checkNeverCalls(s *State, fn *ssa.Function, c *FuncContract) {
+	spec := c.Flags["never_calls"]
+	if spec == "" {
+		return
+	}
+	tag := ""
+	if strings.HasPrefix(spec, "[") {
+		if k := strings.Index(spec, "]"); k > 0 {
+			tag = spec[1:k]
+			spec = strings.TrimSpace(spec[k+1:])
+		}
+	}
+	calls := map[string]string{}
+	e.ifaceCallsOf(fn, map[*ssa.Function]bool{}, calls)
+	e.staticCallsOf(fn, map[*ssa.Function]bool{}, calls)
+	var bad []string
+	for _, item := range strings.Split(spec, ",") {
+		item = strings.TrimSpace(item)
+		if item == "" {
+			continue
+		}
+		if pos, ok := calls[item]; ok {
+			bad = append(bad, item+" at "+pos)
+		}
+	}
+	sort.Strings(bad)
+	goal := TTrue
+	why := fmt.Sprintf("%d distinct callees / interface methods reachable, none of them forbidden", len(calls))
+	if len(bad) > 0 {
+		goal = TFalse
+		why = "reaches " + strings.Join(bad, "; ")
+	}
+	name := fmt.Sprintf("%s#calls:%s", e.rootKey, tag)
+	s.addObligation("frame", name, tag, fn.Pos(), goal, "never calls "+spec+": "+why)
+	if len(bad) > 0 {
+		e.obligations[len(e.obligations)-1].Result = &SolverResult{Status: "sat", Solver: "static-call-analysis", Output: why}
+	}
+}
